@@ -22,14 +22,15 @@ var m3ViaConfiguration bool
 
 // m3Env is one M3 reporter lifetime with its loopback sinks.
 type m3Env struct {
-	ExtraDests int // destinations given in opts.HostPorts that are not sinks (dead ports)
-	Sinks      []*mon.Sink
-	Opts       m3.Options
-	Rep        m3.Reporter
-	TC0, TC1   int64 // clock readings before/after construction
-	fmu        sync.Mutex
-	FlushSeq   []int64 // sequence numbers of UDPFlushed hits
-	inner      func(int)
+	ExtraDests  int  // destinations given in opts.HostPorts that are not sinks (dead ports)
+	ListedTwice bool // every sink is listed twice in HostPorts
+	Sinks       []*mon.Sink
+	Opts        m3.Options
+	Rep         m3.Reporter
+	TC0, TC1    int64 // clock readings before/after construction
+	fmu         sync.Mutex
+	FlushSeq    []int64 // sequence numbers of UDPFlushed hits
+	inner       func(int)
 }
 
 // hook records UDPFlushed hits and forwards to an optional inner hook.
@@ -51,6 +52,9 @@ func (e *m3Env) flushes() []int64 {
 	return append([]int64(nil), e.FlushSeq...)
 }
 
+// m3ListTwice makes newM3Env list every live destination twice in HostPorts.
+var m3ListTwice bool
+
 func newM3Env(nSinks int, opts m3.Options, inner func(int)) (*m3Env, error) {
 	return newM3EnvPorts(nSinks, opts, inner, false)
 }
@@ -58,7 +62,7 @@ func newM3Env(nSinks int, opts m3.Options, inner func(int)) (*m3Env, error) {
 // newM3EnvPorts: lowPorts puts the sinks below the ephemeral port range (for
 // lifetimes that close a sink while the reporter is still sending).
 func newM3EnvPorts(nSinks int, opts m3.Options, inner func(int), lowPorts bool) (*m3Env, error) {
-	e := &m3Env{inner: inner, ExtraDests: len(opts.HostPorts)}
+	e := &m3Env{inner: inner, ExtraDests: len(opts.HostPorts), ListedTwice: m3ListTwice}
 	for i := 0; i < nSinks; i++ {
 		newSink := mon.NewSink
 		if lowPorts {
@@ -70,6 +74,9 @@ func newM3EnvPorts(nSinks int, opts m3.Options, inner func(int), lowPorts bool) 
 		}
 		e.Sinks = append(e.Sinks, s)
 		opts.HostPorts = append(opts.HostPorts, s.Addr())
+		if m3ListTwice {
+			opts.HostPorts = append(opts.HostPorts, s.Addr()) // the same destination listed twice: it receives everything twice
+		}
 	}
 	e.Opts = opts
 	tally.VerifSetHook(e.hook)
@@ -119,6 +126,9 @@ func (e *m3Env) finish() (complete bool, why string) {
 		return true, ""
 	}
 	per := total / (len(e.Sinks) + e.ExtraDests)
+	if e.ListedTwice {
+		per = 2 * total / (2*len(e.Sinks) + e.ExtraDests)
+	}
 	for i, s := range e.Sinks {
 		if !s.WaitFor(per, 10*time.Second) {
 			return false, fmt.Sprintf("sink %d received %d of %d datagrams (kernel drops=%d)", i, s.Count(), per, s.Drops())
